@@ -248,7 +248,10 @@ Lemma rx_step_facts c s f now m k :
   InvR s1 /\ chan s1 = chan s /\ (NoOffer s -> NoOffer s1) /\
   lastf s1 = Some {| fr_host := Some k; fr_online := negb cur; fr_dhcp4 := f_dhcp4 f; fr_src := f_src f |} /\
   (exists hk, hlookup k (hosts s1) = Some hk /\ h_online hk = true /\
-              h_dirty hk = (if cur then match hlookup k (hosts s) with Some h => h_dirty h | None => true end else true)) /\
+              h_dirty hk = (if cur then match hlookup k (hosts s) with Some h => h_dirty h | None => true end else true) /\
+              h_names hk = match hlookup k (hosts s) with
+                           | Some h => if h_mac h =? m then h_names h else names0
+                           | None => names0 end) /\
   (forall k', k' <> k -> hlookup k' (hosts s1) = option_map supersede (hlookup k' (hosts s)) \/
                          hlookup k' (hosts s1) = hlookup k' (hosts s)) /\
   (forall x, abs s1 x = sight m k now (abs s) x).
@@ -277,7 +280,7 @@ Proof.
     split; [exact CC|]. split; [intros NO; eapply NoOffer_ext; [|eapply NoOffer_foc; eauto]; reflexivity|].
     split; [reflexivity|]. split.
     + exists h0. split; auto. split; auto. unfold h0 in *. destruct (hlookup k (hosts s)) as [h|]; [|discriminate].
-      destruct (h_mac h =? m); [reflexivity|discriminate].
+      destruct (h_mac h =? m); [split; reflexivity|discriminate].
     + split; [|exact AB]. intros k' N. right. rewrite CH. destruct (ip_eqb k k') eqn:E; auto. ipeq. congruence.
   - (* transition *)
     rewrite <- CUR. cbn [negb chan lastf hosts set_lastf].
@@ -286,7 +289,8 @@ Proof.
     split; [rewrite CC2; exact CC|].
     split; [intros NO; eapply NoOffer_ext; [|apply NoOffer_online_transition; eapply NoOffer_foc; eauto]; reflexivity|].
     split; [reflexivity|]. split.
-    + eexists. split; [rewrite LK, ip_eqb_refl; reflexivity|]. split; reflexivity.
+    + eexists. split; [rewrite LK, ip_eqb_refl; reflexivity|]. split; [reflexivity|]. split; [reflexivity|].
+      unfold h0. cbn [h_names set_dirty set_online]. destruct (hlookup k (hosts s)) as [h|]; [destruct (h_mac h =? m)|]; reflexivity.
     + split; [|exact AB]. intros k' N. rewrite LK. assert (E : ip_eqb k k' = false) by (apply ip_eqb_neq; congruence).
       rewrite E. rewrite CH, E.
       destruct (is4 k && negb (ip_eqb k (m_ip4 e0)) && sup_cond k (m_hosts e0) k'); [left|right]; reflexivity.
@@ -343,16 +347,23 @@ Qed.
 Inductive dunit : Set :=
 | DFrame (f : fsum) (now : Z)            (* Parse; Notify *)
 | DPurge (now : Z) (order : list ip)
+| DName (kd : nkind) (k : ip) (name : N) (* one of the five Update*Name methods on FindIP(k) *)
 | DCapture (m : mac)
 | DRelease (m : mac).
 
 Definition to_u6 (u : dunit) : unit6 :=
-  match u with DFrame f now => UFrame f now | DPurge now _ => UPurge now | _ => UOther end.
+  match u with
+  | DFrame f now => UFrame f now
+  | DPurge now _ => UPurge now
+  | DName kd k name => UName kd k name
+  | _ => UOther
+  end.
 
 Definition dstep (c : cfg) (s : state) (u : dunit) : state :=
   match u with
   | DFrame f now => frame_unit c s f now
   | DPurge now order => fst (step c s (Purge now order))
+  | DName kd k name => fst (step c s (NameUpdate kd k name))
   | DCapture m => fst (step c s (Capture m))
   | DRelease m => fst (step c s (Release m))
   end.
@@ -366,9 +377,9 @@ Record J (s : state) (r : rstate) : Prop := {
   J_abs : forall k, abs s k = r_map r k;
   J_chan : chan s = [];
   J_no : NoOffer s;
-  J_off : forall k h, hlookup k (hosts s) = Some h -> h_online h = false -> h_dirty h = false;
-  J_on : forall k h, hlookup k (hosts s) = Some h -> h_online h = true ->
-                     h_dirty h = existsb (ip_eqb k) (r_owed r) }.
+  (* a notification is pending in the code exactly for the addresses the reference owes one *)
+  J_dirty : forall k h, hlookup k (hosts s) = Some h -> h_dirty h = existsb (ip_eqb k) (r_owed r);
+  J_names : forall k h, hlookup k (hosts s) = Some h -> h_names h = r_names r k }.
 
 Definition unit_ok (c : cfg) (s : state) (u : dunit) : Prop :=
   match u with
@@ -378,7 +389,7 @@ Definition unit_ok (c : cfg) (s : state) (u : dunit) : Prop :=
   | _ => True
   end.
 
-(* the order clause: everything announced about other addresses (offline by supersession) precedes the
+(* the order clause: everything announced about other addresses (offline) precedes the
    notification about the frame's own address *)
 Definition order_ok (c : cfg) (u : dunit) (em : list notif) : Prop :=
   match u with
@@ -402,6 +413,28 @@ Proof.
   - rewrite EH. exact F.
 Qed.
 
+Lemma frame_unit_notify c s f now fr :
+  lastf (fst (step c s (Rx f now))) = Some fr -> frame_unit c s f now = notify fr (fst (step c s (Rx f now))).
+Proof.
+  intros L. unfold frame_unit. set (s1 := fst (step c s (Rx f now))) in *. cbn [step]. rewrite L. reflexivity.
+Qed.
+
+Lemma existsb_sym x l : existsb (fun v => ip_eqb v x) l = existsb (ip_eqb x) l.
+Proof. induction l as [|y r IH]; simpl; auto. rewrite IH, (ip_eqb_sym y x). reflexivity. Qed.
+
+(* membership of an indexed address in the host list of a MAC entry *)
+Lemma mem_mac_hosts s m x h : InvP s -> hlookup x (hosts s) = Some h ->
+  existsb (ip_eqb x) (mac_hosts m s) = (h_mac h =? m).
+Proof.
+  intros I L. destruct (InvS_host _ _ _ (proj1 I) L) as (_ & e & F & Ix).
+  destruct (h_mac h =? m) eqn:E.
+  - ipeq. subst m. unfold mac_hosts. rewrite F. apply existsb_exists. exists x. split; auto. apply ip_eqb_refl.
+  - destruct (existsb (ip_eqb x) (mac_hosts m s)) eqn:EX; auto. exfalso.
+    apply existsb_exists in EX. destruct EX as (v & Iv & Ev). ipeq. subst v.
+    unfold mac_hosts in Iv. destruct (find_mac m (macs s)) as [e'|] eqn:F'; [|destruct Iv].
+    destruct (InvS_listed _ _ _ _ (proj1 I) F' Iv) as (h' & L' & M' & _). rewrite L in L'. inversion L'; subst. congruence.
+Qed.
+
 (* ---- frame units ---- *)
 Lemma frame_unit_none c s r f now :
   J s r -> fsum_wf f -> host_event c f = None ->
@@ -412,28 +445,36 @@ Proof.
   eapply NoOffer_ext; [|apply (J_no s r Js)]. reflexivity.
 Qed.
 
+Definition owed_after (r : rstate) (m : mac) (k : ip) (now : Z) : list ip :=
+  filter (fun x => negb (ip_eqb x k) && negb (sibling_due (r_map r) (sight m k now (r_map r)) (r_owed r) m k x)) (r_owed r).
+
+Definition names_after (r : rstate) (m : mac) (k : ip) : ip -> names :=
+  fun x => if ip_eqb x k && created (r_map r) m k then names0 else r_names r x.
+
 Theorem frame_unit_once c s r f now m k :
   J s r -> unit_ok c s (DFrame f now) -> host_event c f = Some (m, k) ->
   let s2 := frame_unit c s f now in
   let cur := currentb (r_map r) m k in
   (exists offs last, chan s2 = offs ++ last /\
       Forall (fun n => nt_online n = false) offs /\ NoDup (map nt_ip offs) /\
-      (forall x, x <> k -> existsb (fun v => ip_eqb v x) (map nt_ip offs) = flipb (r_map r) (sight m k now (r_map r)) x) /\
+      (forall x, x <> k -> existsb (fun v => ip_eqb v x) (map nt_ip offs) =
+                           sibling_due (r_map r) (sight m k now (r_map r)) (r_owed r) m k x) /\
       existsb (fun v => ip_eqb v k) (map nt_ip offs) = false /\
       ((negb cur || existsb (ip_eqb k) (r_owed r) = true /\ exists n, last = [n] /\ nt_ip n = k /\ nt_online n = true) \/
        (negb cur || existsb (ip_eqb k) (r_owed r) = false /\ last = []))) /\
-  (forall k' h', hlookup k' (hosts s2) = Some h' -> h_online h' = false -> h_dirty h' = false) /\
-  (forall k' h', hlookup k' (hosts s2) = Some h' -> h_online h' = true ->
-                 h_dirty h' = existsb (ip_eqb k') (remove_ip k (r_owed r))).
+  (forall k' h', hlookup k' (hosts s2) = Some h' -> h_dirty h' = existsb (ip_eqb k') (owed_after r m k now)) /\
+  (forall k' h', hlookup k' (hosts s2) = Some h' -> h_names h' = names_after r m k k').
 Proof.
   intros Js [W CAP] HE. cbn zeta.
-  destruct (rx_step_facts c s f now m k (J_inv s r Js) HE) as (I1 & C1 & NO1 & LF & (hk & Lk & Ok & Dk) & OTH & AB).
+  destruct (rx_step_facts c s f now m k (J_inv s r Js) HE) as (I1 & C1 & NO1 & LF & (hk & Lk & Ok & Dk & Nk) & OTH & AB).
   set (s1 := fst (step c s (Rx f now))) in *.
   assert (CUR : currentb (abs s) m k = currentb (r_map r) m k) by (unfold currentb; rewrite (J_abs s r Js); reflexivity).
   rewrite CUR in *. set (cur := currentb (r_map r) m k) in *.
   assert (CURa : currentb (abs s) m k = cur) by (unfold cur, currentb; rewrite (J_abs s r Js); reflexivity).
   assert (FLE : forall x, flipb (abs s) (abs s1) x = flipb (r_map r) (sight m k now (r_map r)) x).
   { intros x. apply flipb_ext; [apply (J_abs s r Js)|]. rewrite AB. apply sight_ext. apply (J_abs s r Js). }
+  assert (AB1 : forall x, abs s1 x = sight m k now (r_map r) x).
+  { intros x. rewrite AB. apply sight_ext. apply (J_abs s r Js). }
   (* records of the other hosts after Parse *)
   assert (REC : forall x, x <> k -> hlookup x (hosts s1) =
                  if flipb (abs s) (abs s1) x then option_map supersede (hlookup x (hosts s)) else hlookup x (hosts s)).
@@ -442,85 +483,107 @@ Proof.
       rewrite supersede_offline. destruct (h_online hx) eqn:OX; simpl; auto.
       unfold supersede. rewrite OX. reflexivity.
     - destruct (hlookup x (hosts s)) as [hx|]; simpl; auto. destruct (h_online hx); reflexivity. }
+  (* when the frame's address is current, nothing else changes and nothing is carried along *)
+  assert (NOSD : cur = true -> forall x, x <> k ->
+                 sibling_due (r_map r) (sight m k now (r_map r)) (r_owed r) m k x = false /\ flipb (abs s) (abs s1) x = false).
+  { intros CC x N. split; [unfold sibling_due; fold cur; rewrite CC; reflexivity|].
+    rewrite FLE. unfold flipb. rewrite (sight_other_current m k now (r_map r) x N CC).
+    destruct (r_map r x) as [e|]; auto. destruct (a_online e); reflexivity. }
   assert (DIRTY : h_dirty hk = negb cur || existsb (ip_eqb k) (r_owed r)).
   { rewrite Dk. destruct cur eqn:CC; [|reflexivity]. simpl.
     unfold cur, currentb in CC. rewrite <- (J_abs s r Js) in CC. unfold abs in CC.
-    destruct (hlookup k (hosts s)) as [h|] eqn:L; [|discriminate]. simpl in CC.
-    apply andb_prop in CC. destruct CC as [_ OO]. apply (J_on s r Js k h L OO). }
-  unfold frame_unit. fold s1. cbn [step]. rewrite LF. cbn [fst]. unfold notify. cbn [fr_host fr_online].
+    destruct (hlookup k (hosts s)) as [h|] eqn:L; [|discriminate]. apply (J_dirty s r Js k h L). }
+  assert (NAMES : h_names hk = names_after r m k k).
+  { rewrite Nk. unfold names_after, created. rewrite ip_eqb_refl. rewrite <- (J_abs s r Js). unfold abs. cbn [andb].
+    destruct (hlookup k (hosts s)) as [h|] eqn:L; cbn [option_map aof a_mac]; [|reflexivity].
+    destruct (h_mac h =? m); cbn [negb]; [apply (J_names s r Js k h L)|reflexivity]. }
+  assert (OWK : existsb (ip_eqb k) (owed_after r m k now) = false).
+  { unfold owed_after. rewrite existsb_filter_ip, ip_eqb_refl. reflexivity. }
+  assert (OWX : forall x, x <> k -> existsb (ip_eqb x) (owed_after r m k now) =
+                  negb (sibling_due (r_map r) (sight m k now (r_map r)) (r_owed r) m k x) && existsb (ip_eqb x) (r_owed r)).
+  { intros x N. unfold owed_after. rewrite existsb_filter_ip.
+    assert (E : ip_eqb x k = false) by (apply ip_eqb_neq; exact N). rewrite E. reflexivity. }
+  assert (NMX : forall x, x <> k -> names_after r m k x = r_names r x).
+  { intros x N. unfold names_after. assert (E : ip_eqb x k = false) by (apply ip_eqb_neq; exact N). rewrite E. reflexivity. }
+  rewrite (frame_unit_notify _ _ _ _ _ LF). fold s1. unfold notify. cbn [fr_host fr_online].
   destruct (h_dirty hk) eqn:DK.
   2:{ (* repeat traffic, nothing owed *)
+    assert (CC : cur = true) by (destruct cur; [reflexivity|simpl in DIRTY; discriminate]).
     unfold notify_host. rewrite Lk, DK. cbn [negb].
     split; [|split].
     - exists [], []. rewrite C1, (J_chan s r Js). repeat split; auto; try constructor.
-      intros x N. simpl. rewrite <- FLE. unfold flipb. rewrite AB.
-        destruct cur eqn:CC; [|simpl in DIRTY; discriminate].
-        rewrite (sight_other_current m k now (abs s) x N CURa).
-        destruct (abs s x) as [e|]; auto. destruct (a_online e); reflexivity.
-    - intros k' h' L' O'. destruct (ip_eqb k k') eqn:E.
-      + ipeq. subst k'. rewrite Lk in L'. inversion L'; subst. congruence.
-      + ipeq. rewrite REC in L' by congruence.
-        destruct (flipb (abs s) (abs s1) k') eqn:FL.
-        * exfalso. destruct cur eqn:CC; [|simpl in DIRTY; discriminate].
-          rewrite FLE in FL. apply sight_flip in FL; [|congruence]. destruct FL as (X & _). unfold cur in CC. congruence.
-        * apply (J_off s r Js k' h' L' O').
-    - intros k' h' L' O'. destruct (ip_eqb k k') eqn:E.
-      + ipeq. subst k'. rewrite Lk in L'. inversion L'; subst. rewrite DK. symmetry. apply existsb_remove_ip_self.
-      + ipeq. rewrite existsb_remove_ip by congruence. rewrite REC in L' by congruence.
-        destruct (flipb (abs s) (abs s1) k') eqn:FL.
-        * destruct (hlookup k' (hosts s)) as [hx|]; [|discriminate]. simpl in L'. inversion L'; subst.
-          rewrite supersede_offline in O'. discriminate.
-        * apply (J_on s r Js k' h' L' O'). }
+      intros x N. simpl. symmetry. apply (NOSD CC x N).
+    - intros k' h' L'. destruct (ip_eqb k k') eqn:E.
+      + ipeq. subst k'. rewrite Lk in L'. inversion L'; subst. rewrite DK, OWK. reflexivity.
+      + ipeq. assert (N : k' <> k) by congruence. destruct (NOSD CC k' N) as (SD & FL).
+        rewrite REC, FL in L' by auto. rewrite (OWX k' N), SD. apply (J_dirty s r Js k' h' L').
+    - intros k' h' L'. destruct (ip_eqb k k') eqn:E.
+      + ipeq. subst k'. rewrite Lk in L'. inversion L'; subst. exact NAMES.
+      + ipeq. assert (N : k' <> k) by congruence. destruct (NOSD CC k' N) as (SD & FL).
+        rewrite REC, FL in L' by auto. rewrite (NMX k' N). apply (J_names s r Js k' h' L'). }
   (* a notification is pending for k *)
   destruct (InvS_host _ _ _ (proj1 (proj1 I1)) Lk) as (Hipk & ek & Fk & _).
+  assert (MK : h_mac hk = m) by (apply (find_or_create_post_rx c s f now m k HE (proj1 (J_inv s r Js)) hk Lk)).
   assert (CAPk : (List.length (chan s1) + List.length (mac_hosts (h_mac hk) s1) < chan_cap)%nat).
   { rewrite C1, (J_chan s r Js). simpl. specialize (CAP (h_mac hk)). unfold chan_cap. lia. }
   destruct (notify_host_strong k (negb cur) s1 hk (proj1 I1) Lk DK CAPk) as (offs & n & CH & MI & FO & NI & NO & ND & LKF).
   set (l := notify_list k (negb cur) s1 hk) in *.
-  assert (MEM : forall x, x <> k -> existsb (fun v => ip_eqb v x) l = flipb (abs s) (abs s1) x).
-  { intros x N. destruct (flipb (abs s) (abs s1) x) eqn:FL.
-    - pose proof FL as FL2. rewrite FLE in FL2. apply sight_flip in FL2; auto. destruct FL2 as (CF & V4 & e & AX & EM & EO).
-      rewrite <- (J_abs s r Js) in AX. unfold abs in AX. destruct (hlookup x (hosts s)) as [hx|] eqn:LX; [|discriminate].
-      simpl in AX. inversion AX; subst e. simpl in EM, EO.
-      assert (LX1 : hlookup x (hosts s1) = Some (supersede hx)) by (rewrite REC, FL, LX by auto; reflexivity).
-      apply existsb_exists. exists x. split; [|apply ip_eqb_refl].
-      unfold l, notify_list. fold cur in CF. rewrite CF, Hipk, V4. cbn [negb andb]. apply filter_In. split.
-      + destruct (InvS_host _ _ _ (proj1 (proj1 I1)) LX1) as (_ & ex & Fx & Ix).
-        assert (MM : h_mac (supersede hx) = h_mac hk).
-        { destruct (supersede_keeps hx) as [_ ->]. rewrite EM.
-          destruct (find_or_create_post_rx c s f now m k HE (proj1 (J_inv s r Js)) hk Lk). reflexivity. }
-        rewrite MM in Fx. unfold mac_hosts. rewrite Fx. exact Ix.
-      + assert (E : ip_eqb x k = false) by (apply ip_eqb_neq; exact N). rewrite E, LX1. simpl.
-        rewrite supersede_offline. unfold supersede. rewrite EO. reflexivity.
-    - destruct (existsb (fun v => ip_eqb v x) l) eqn:EX; auto. exfalso.
-      apply existsb_exists in EX. destruct EX as (v & Iv & Ev). ipeq. subst v.
-      unfold l, notify_list in Iv. destruct (negb cur && is4 (h_ip hk)); [|destruct Iv]. apply filter_In in Iv.
-      destruct Iv as [_ Pv]. apply andb_prop in Pv. destruct Pv as [_ Pv].
-      rewrite REC, FL in Pv by auto. destruct (hlookup x (hosts s)) as [hx|] eqn:LX; [|discriminate].
-      apply andb_prop in Pv. destruct Pv as [OX DX]. apply negb_true_iff in OX.
-      rewrite (J_off s r Js x hx LX OX) in DX. discriminate. }
+  assert (MEM : forall x, x <> k -> existsb (fun v => ip_eqb v x) l =
+                  sibling_due (r_map r) (sight m k now (r_map r)) (r_owed r) m k x).
+  { intros x N. rewrite existsb_sym. unfold sibling_due. fold cur. unfold l, notify_list. rewrite Hipk, MK.
+    destruct (negb cur && is4 k) eqn:G; [|reflexivity]. cbn [andb].
+    rewrite existsb_filter_ip. assert (E : ip_eqb x k = false) by (apply ip_eqb_neq; exact N). rewrite E. cbn [negb andb].
+    unfold sib_off. rewrite <- AB1. rewrite <- FLE. unfold abs at 1.
+    destruct (hlookup x (hosts s1)) as [h1|] eqn:L1; cbn [option_map]; [|reflexivity].
+    rewrite (mem_mac_hosts s1 m x h1 (proj1 I1) L1). cbn [aof a_mac a_online].
+    assert (DX : h_online h1 = false -> h_dirty h1 = flipb (abs s) (abs s1) x || existsb (ip_eqb x) (r_owed r)).
+    { intros O1. rewrite REC in L1 by auto. destruct (flipb (abs s) (abs s1) x) eqn:FL.
+      - destruct (hlookup x (hosts s)) as [hx|] eqn:LX; [|discriminate]. simpl in L1. inversion L1; subst h1.
+        pose proof FL as FL0. unfold flipb, abs in FL0. rewrite LX in FL0. cbn [option_map] in FL0.
+        destruct (option_map aof (hlookup x (hosts s1))) as [e1|]; [|discriminate FL0].
+        apply andb_prop in FL0. destruct FL0 as [OX _]. cbn [aof a_online] in OX.
+        unfold supersede. rewrite OX. reflexivity.
+      - simpl. apply (J_dirty s r Js x h1 L1). }
+    destruct (h_mac h1 =? m); cbn [andb]; [|rewrite andb_false_r; reflexivity].
+    destruct (h_online h1) eqn:O1; cbn [negb andb]; [reflexivity|]. rewrite andb_true_r. apply DX. reflexivity. }
   assert (NKL : existsb (fun v => ip_eqb v k) l = false).
   { destruct (existsb (fun v => ip_eqb v k) l) eqn:EX; auto. exfalso.
     apply existsb_exists in EX. destruct EX as (v & Iv & Ev). ipeq. subst v.
     unfold l, notify_list in Iv. destruct (negb cur && is4 (h_ip hk)); [|destruct Iv]. apply filter_In in Iv.
     destruct Iv as [_ Pv]. rewrite ip_eqb_refl in Pv. discriminate. }
+  (* a host outside the list that was turned offline by this sighting does not exist *)
+  assert (FLSD : forall x, x <> k -> flipb (abs s) (abs s1) x = true ->
+                   sibling_due (r_map r) (sight m k now (r_map r)) (r_owed r) m k x = true).
+  { intros x N FL. rewrite FLE in FL. pose proof FL as FL2. apply sight_flip in FL2; auto.
+    destruct FL2 as (CF & V4 & e & AX & EM & EO). unfold sibling_due. fold cur. unfold cur. rewrite CF, V4, FL. cbn [negb andb orb].
+    rewrite andb_true_r. unfold sib_off. unfold flipb in FL. rewrite AX in FL.
+    destruct (sight m k now (r_map r) x) as [e'|] eqn:SX; [|discriminate].
+    assert (ME : a_mac e' = a_mac e).
+    { unfold sight in SX. assert (E : ip_eqb x k = false) by (apply ip_eqb_neq; exact N). rewrite E, AX in SX.
+      destruct (negb _ && is4 k && is4 x && (a_mac e =? m)); inversion SX; reflexivity. }
+    rewrite ME, EM, N.eqb_refl. rewrite EO in FL. simpl in FL. rewrite FL. reflexivity. }
   split; [|split].
   - exists offs, [n]. rewrite CH, C1, (J_chan s r Js). cbn [app]. rewrite MI. repeat split; auto.
-    + intros x N. rewrite MEM by auto. apply FLE.
-    + left. split; [rewrite <- DIRTY; reflexivity|]. exists n. repeat split; auto. rewrite NO. exact Ok.
-  - intros k' h' L' O'. rewrite LKF in L'. destruct (ip_eqb k k') eqn:E.
-    + inversion L'; subst h'. simpl in O'. congruence.
-    + ipeq. assert (N : k' <> k) by congruence. rewrite MEM in L' by auto. rewrite REC in L' by auto.
-      destruct (flipb (abs s) (abs s1) k') eqn:FL.
-      * destruct (hlookup k' (hosts s)) as [hx|]; [|discriminate]. simpl in L'. inversion L'; subst. reflexivity.
-      * apply (J_off s r Js k' h' L' O').
-  - intros k' h' L' O'. rewrite LKF in L'. destruct (ip_eqb k k') eqn:E.
-    + ipeq. subst k'. inversion L'; subst h'. simpl. symmetry. apply existsb_remove_ip_self.
-    + ipeq. assert (N : k' <> k) by congruence. rewrite existsb_remove_ip by auto.
-      rewrite MEM in L' by auto. rewrite REC in L' by auto.
-      destruct (flipb (abs s) (abs s1) k') eqn:FL.
-      * destruct (hlookup k' (hosts s)) as [hx|]; [|discriminate]. simpl in L'. inversion L'; subst. simpl in O'. discriminate.
-      * apply (J_on s r Js k' h' L' O').
+    left. split; [rewrite <- DIRTY; reflexivity|]. exists n. repeat split; auto. rewrite NO. exact Ok.
+  - intros k' h' L'. rewrite LKF in L'. destruct (ip_eqb k k') eqn:E.
+    + ipeq. subst k'. inversion L'; subst h'. rewrite OWK. reflexivity.
+    + ipeq. assert (N : k' <> k) by congruence. rewrite (OWX k' N). rewrite MEM in L' by auto.
+      destruct (sibling_due (r_map r) (sight m k now (r_map r)) (r_owed r) m k k') eqn:SD.
+      * destruct (hlookup k' (hosts s1)) as [h1|]; [|discriminate]. simpl in L'. inversion L'; subst. reflexivity.
+      * rewrite REC in L' by auto. destruct (flipb (abs s) (abs s1) k') eqn:FL.
+        -- rewrite (FLSD k' N FL) in SD. discriminate.
+        -- simpl. apply (J_dirty s r Js k' h' L').
+  - intros k' h' L'. rewrite LKF in L'. destruct (ip_eqb k k') eqn:E.
+    + ipeq. subst k'. inversion L'; subst h'. exact NAMES.
+    + ipeq. assert (N : k' <> k) by congruence. rewrite (NMX k' N).
+      assert (NS1 : forall h1, hlookup k' (hosts s1) = Some h1 -> h_names h1 = r_names r k').
+      { intros h1 L1. rewrite REC in L1 by auto. destruct (flipb (abs s) (abs s1) k').
+        - destruct (hlookup k' (hosts s)) as [hx|] eqn:LX; [|discriminate]. simpl in L1. inversion L1; subst.
+          destruct (supersede_keeps hx) as [_ _]. unfold supersede. destruct (h_online hx); apply (J_names s r Js k' hx LX).
+        - apply (J_names s r Js k' h1 L1). }
+      destruct (existsb (fun v => ip_eqb v k') l).
+      * destruct (hlookup k' (hosts s1)) as [h1|] eqn:L1; [|discriminate]. simpl in L'. inversion L'; subst. apply (NS1 h1 eq_refl).
+      * apply NS1. exact L'.
 Qed.
 
 (* ---- purge units ---- *)
@@ -557,15 +620,14 @@ Theorem purge_unit_once c s r now order :
   let s2 := fst (step c s (Purge now order)) in
   (Forall (fun n => nt_online n = false) (chan s2) /\ NoDup (map nt_ip (chan s2)) /\
    forall x, existsb (fun v => ip_eqb v x) (map nt_ip (chan s2)) = flipb (r_map r) (age c now (r_map r)) x) /\
-  (forall k' h', hlookup k' (hosts s2) = Some h' -> h_online h' = false -> h_dirty h' = false) /\
-  (forall k' h', hlookup k' (hosts s2) = Some h' -> h_online h' = true ->
-     h_dirty h' = existsb (ip_eqb k') (filter (fun x => negb (flipb (r_map r) (age c now (r_map r)) x)) (r_owed r))).
+  (forall k' h', hlookup k' (hosts s2) = Some h' ->
+     h_dirty h' = existsb (ip_eqb k') (filter (fun x => negb (flipb (r_map r) (age c now (r_map r)) x)) (r_owed r))) /\
+  (forall k' h', hlookup k' (hosts s2) = Some h' -> h_names h' = r_names r k').
 Proof.
   intros Js (ND & CO & CAP). cbn zeta. pose proof (proj1 (J_inv s r Js)) as IP.
   destruct (purge_shape_proof c now order s (InvP_Inv s IP)) as (ns & CH & MI & FO).
   { rewrite (J_chan s r Js). simpl. exact CAP. }
   rewrite (J_chan s r Js) in CH. cbn [app] in CH.
-  (* membership of the emitted addresses, and the host records afterwards *)
   assert (FLIP : forall x, flipb (r_map r) (age c now (r_map r)) x =
                  match hlookup x (hosts s) with Some h0 => aged c now h0 | None => false end).
   { intros x. unfold flipb, age. rewrite <- (J_abs s r Js). unfold abs, aged.
@@ -591,14 +653,13 @@ Proof.
     + apply (snapshot_member s order (aged c now) x h0 IP L0).
       apply CO. apply hlookup_In in L0. apply in_map_iff. exists (x, h0). auto.
     + apply snapshot_absent; auto.
-  - intros k' h' L' O'. rewrite LK in L'. destruct (hlookup k' (hosts s)) as [h0|] eqn:L0; [|discriminate].
+  - intros k' h' L'. rewrite LK in L'. destruct (hlookup k' (hosts s)) as [h0|] eqn:L0; [|discriminate].
     destruct (negb (h_online h0) && (h_last h0 <? now - purge_dl c)%Z); [discriminate|].
-    destruct (aged c now h0) eqn:AG; inversion L'; subst h'; [reflexivity|].
-    apply (J_off s r Js k' h0 L0 O').
-  - intros k' h' L' O'. rewrite LK in L'. destruct (hlookup k' (hosts s)) as [h0|] eqn:L0; [|discriminate].
+    rewrite existsb_filter_ip, FLIP, L0.
+    destruct (aged c now h0) eqn:AG; inversion L'; subst h'; [reflexivity|]. simpl. apply (J_dirty s r Js k' h0 L0).
+  - intros k' h' L'. rewrite LK in L'. destruct (hlookup k' (hosts s)) as [h0|] eqn:L0; [|discriminate].
     destruct (negb (h_online h0) && (h_last h0 <? now - purge_dl c)%Z); [discriminate|].
-    destruct (aged c now h0) eqn:AG; inversion L'; subst h'; [simpl in O'; discriminate|].
-    rewrite existsb_filter_ip, FLIP, L0, AG. simpl. apply (J_on s r Js k' h0 L0 O').
+    destruct (aged c now h0); inversion L'; subst h'; apply (J_names s r Js k' h0 L0).
 Qed.
 
 (* ------------------------------------------------------------------ *)
@@ -624,10 +685,43 @@ Proof.
   congruence.
 Qed.
 
-Lemma frame_unit_notify c s f now fr :
-  lastf (fst (step c s (Rx f now))) = Some fr -> frame_unit c s f now = notify fr (fst (step c s (Rx f now))).
+(* a name update *)
+Lemma name_unit c s r kd k name :
+  J s r ->
+  let s2 := fst (step c s (NameUpdate kd k name)) in
+  chan s2 = chan s /\ J (set_chan [] s2) (rnext c r (UName kd k name)).
 Proof.
-  intros L. unfold frame_unit. set (s1 := fst (step c s (Rx f now))) in *. cbn [step]. rewrite L. reflexivity.
+  intros Js. cbn zeta. cbn [step fst]. pose proof Js as [A B C0 D E F].
+  assert (CH : chan (update_name kd k name s) = chan s).
+  { unfold update_name. destruct (hlookup k (hosts s)); auto. destruct (merge _ _) as [nm [|]]; reflexivity. }
+  split; [exact CH|].
+  assert (NC : name_changes r kd k name =
+               match hlookup k (hosts s) with Some h => snd (merge (nget kd (h_names h)) name) | None => false end).
+  { unfold name_changes. rewrite <- B. unfold abs. destruct (hlookup k (hosts s)) as [h|] eqn:L; simpl; auto.
+    rewrite (F k h L). reflexivity. }
+  cbn [rnext]. rewrite NC.
+  assert (COMMON : InvR (set_chan [] (update_name kd k name s)) /\ NoOffer (set_chan [] (update_name kd k name s)) /\
+                   forall x, abs (set_chan [] (update_name kd k name s)) x = abs s x).
+  { split; [apply (update_name_InvR kd k name s A)|]. split.
+    - unfold update_name. destruct (hlookup k (hosts s)) as [h|]; auto. destruct (merge _ _) as [nm [|]]; auto.
+      apply NoOffer_upd_mac; [reflexivity|]. apply NoOffer_upd_host. exact D.
+    - intros x. apply (abs_update_name kd k name s x). }
+  destruct COMMON as (IR & NO & AB).
+  unfold update_name in *. destruct (hlookup k (hosts s)) as [h|] eqn:L.
+  - unfold merge in *. destruct (negb (name =? 0) && negb (nget kd (h_names h) =? name)) eqn:MOD; cbn [snd fst] in *.
+    + constructor; auto.
+      * intros x. rewrite AB. apply B.
+      * intros x hx Lx. cbn [hosts set_chan upd_mac set_macs upd_host set_hosts] in Lx. rewrite hlookup_hupd in Lx.
+        cbn [r_owed existsb]. rewrite (ip_eqb_sym x k). destruct (ip_eqb k x) eqn:EX.
+        -- ipeq. subst x. rewrite L in Lx. simpl in Lx. inversion Lx; subst. reflexivity.
+        -- rewrite (E x hx Lx). reflexivity.
+      * intros x hx Lx. cbn [hosts set_chan upd_mac set_macs upd_host set_hosts] in Lx. rewrite hlookup_hupd in Lx.
+        cbn [r_names]. rewrite (ip_eqb_sym x k). destruct (ip_eqb k x) eqn:EX.
+        -- ipeq. subst x. rewrite L in Lx. simpl in Lx. inversion Lx; subst. cbn [h_names set_dirty set_hnames].
+           rewrite (F k h L). reflexivity.
+        -- apply (F x hx Lx).
+    + apply (J_hosts_macs s); auto.
+  - apply (J_hosts_macs s); auto.
 Qed.
 
 Theorem unit_once c s r u :
@@ -636,13 +730,13 @@ Theorem unit_once c s r u :
   order_ok c u (snd (exec c s u)) /\
   J (fst (exec c s u)) (rnext c r (to_u6 u)).
 Proof.
-  intros Js OK. destruct u as [f now|now order|m|m]; unfold exec; cbn [fst snd dstep to_u6].
+  intros Js OK. destruct u as [f now|now order|kd k name|m|m]; unfold exec; cbn [fst snd dstep to_u6].
   - (* frame *)
     destruct OK as [W CAP]. pose proof (event_agree c f W) as EA.
     assert (IR2 : InvR (frame_unit c s f now)).
     { unfold frame_unit. apply step_InvR. apply step_InvR. apply (J_inv s r Js). }
     destruct (host_event c f) as [[m k]|] eqn:HE.
-    + destruct (frame_unit_once c s r f now m k Js (conj W CAP) HE) as ((offs & last & CH & FO & ND & MEM & NK & LAST) & JOFF & JON).
+    + destruct (frame_unit_once c s r f now m k Js (conj W CAP) HE) as ((offs & last & CH & FO & ND & MEM & NK & LAST) & JD & JN).
       destruct (rx_step_facts c s f now m k (J_inv s r Js) HE) as (I1 & C1 & NO1 & LF & _ & _ & AB).
       split; [|split].
       * intros x. cbn [due]. rewrite <- EA. rewrite CH, map_app, about_app.
@@ -671,7 +765,7 @@ Proof.
       * unfold order_ok. rewrite <- EA, EC. apply (J_chan s r Js).
       * cbn [rnext]. rewrite <- EA. apply (J_hosts_macs s); auto.
   - (* purge *)
-    destruct (purge_unit_once c s r now order Js OK) as ((FO & ND & MEM) & JOFF & JON).
+    destruct (purge_unit_once c s r now order Js OK) as ((FO & ND & MEM) & JD & JN).
     destruct OK as (NDo & CO & CAP).
     split; [|split].
     + intros x. cbn [due]. rewrite (about_offline_nodup x _ FO ND), MEM. reflexivity.
@@ -682,6 +776,12 @@ Proof.
         cbn [step fst]. rewrite purge_refine; [|apply (J_inv s r Js)|exact CO].
         unfold age. rewrite (J_abs s r Js). reflexivity.
       * apply NoOffer_purge. apply (J_no s r Js).
+  - (* name update *)
+    destruct (name_unit c s r kd k name Js) as (CH & Jn).
+    split; [|split].
+    + intros x. rewrite CH, (J_chan s r Js). reflexivity.
+    + rewrite CH, (J_chan s r Js). constructor.
+    + exact Jn.
   - (* Capture *)
     assert (EH : hosts (fst (step c s (Capture m))) = hosts s /\ chan (fst (step c s (Capture m))) = chan s).
     { cbn [step]. unfold capture. destruct (find_mac m (macs (mac_find_or_create m s))) as [e|]; cbn [fst];
@@ -748,16 +848,17 @@ Proof.
   pose proof (foc_chan _ _ _ _ _ _ F4) as CC4. pose proof (NoOffer_foc _ _ _ _ _ _ F4 (proj2 C3)) as NO4.
   inversion H; subst s0. constructor; auto.
   - apply NoOffer_upd_host. apply NoOffer_upd_mac; [reflexivity|exact NO4].
-  - intros k h L O. exfalso. cbn [hosts upd_host upd_mac set_hosts set_macs] in L. rewrite hlookup_hupd, CH4, !L3 in L.
-    destruct (ip_eqb (rt_ip4 c) k).
-    + simpl in L. inversion L; subst h. simpl in O. discriminate.
-    + destruct (ip_eqb (own_ip4 c) k); inversion L; subst h. simpl in O. discriminate.
-  - intros k h L O. cbn [hosts upd_host upd_mac set_hosts set_macs] in L. rewrite hlookup_hupd, CH4, !L3 in L.
+  - intros k h L. cbn [hosts upd_host upd_mac set_hosts set_macs] in L. rewrite hlookup_hupd, CH4, !L3 in L.
     cbn [rinit r_owed existsb]. destruct (ip_eqb (rt_ip4 c) k) eqn:E1.
     + ipeq. subst k. rewrite ip_eqb_refl, orb_true_r. simpl in L. inversion L; subst h.
       repeat match goal with |- context [if ?b then _ else _] => destruct b end; reflexivity.
     + destruct (ip_eqb (own_ip4 c) k) eqn:E2; inversion L; subst h.
       ipeq. subst k. rewrite ip_eqb_refl. reflexivity.
+  - intros k h L. cbn [hosts upd_host upd_mac set_hosts set_macs] in L. rewrite hlookup_hupd, CH4, !L3 in L.
+    cbn [rinit r_names]. destruct (ip_eqb (rt_ip4 c) k) eqn:E1.
+    + simpl in L. inversion L; subst h.
+      repeat match goal with |- context [if ?b then _ else _] => destruct b end; reflexivity.
+    + destruct (ip_eqb (own_ip4 c) k) eqn:E2; inversion L; subst h. reflexivity.
 Qed.
 
 (* all disciplined histories from NewSession *)
@@ -777,7 +878,7 @@ Qed.
 Theorem expect_due c dom r u x : NoDup dom -> In x dom -> about x (fst (expect c dom r u)) = due c r u x.
 Proof.
   intros ND Ix. assert (EX : existsb (ip_eqb x) dom = true) by (apply existsb_exists; exists x; split; auto; apply ip_eqb_refl).
-  destruct u as [f now|now|]; cbn [expect fst due]; auto.
+  destruct u as [f now|now|kd k name|]; cbn [expect fst due]; auto.
   - destruct (ref_event c f) as [[m k]|]; auto. rewrite about_app, about_map_false by (apply NoDup_filter; exact ND).
     rewrite existsb_filter_ip, EX, andb_true_r.
     destruct (ip_eqb x k) eqn:E; simpl.
@@ -1032,7 +1133,7 @@ Qed.
 Lemma units_okb_sound c us : forall s, units_okb c s us = true -> units_ok c s us.
 Proof.
   induction us as [|u rest IH]; simpl; auto. intros s H. apply andb_prop in H. destruct H as [H1 H2].
-  split; [|apply IH; exact H2]. destruct u as [f now|now order|m|m]; simpl in *; auto.
+  split; [|apply IH; exact H2]. destruct u as [f now|now order|kd k name|m|m]; simpl in *; auto.
   - apply andb_prop in H1. destruct H1 as [W S]. split; [|apply small_macs_ok; exact S].
     unfold fsum_wf. destruct (f_class f); auto; destruct (f_ip f); auto; try discriminate. unfold ip6_ok. lia.
   - apply andb_prop in H1. destruct H1 as [H1 L]. apply andb_prop in H1. destruct H1 as [ND CO].
@@ -1047,6 +1148,8 @@ Definition ex_units : list dunit :=
     DFrame {| f_src := ex_mac1; f_class := FIP4; f_ip := IP4 3232235522; f_arpmac := 0; f_dhcp4 := false |} 20;   (* IP change *)
     DFrame {| f_src := ex_mac2; f_class := FIP4; f_ip := IP4 3232235522; f_arpmac := 0; f_dhcp4 := false |} 30;   (* re-binding *)
     DCapture ex_mac1;
+    DName KMdns (IP4 3232235522) 5;                                                                                  (* a learned name *)
+    DFrame {| f_src := ex_mac2; f_class := FIP4; f_ip := IP4 3232235522; f_arpmac := 0; f_dhcp4 := false |} 31;   (* delivered with repeat traffic *)
     DPurge 400 [IP4 3232235521; IP4 3232235522; IP4 3232235531; IP4 3232235649];
     DFrame {| f_src := 439804651110; f_class := FIP6; f_ip := IP6 338288524927261089654018896841347694593; f_arpmac := 0; f_dhcp4 := false |} 410 ].
 
@@ -1066,6 +1169,8 @@ Lemma ex_units_emissions :
     [(IP4 3232235521, false); (IP4 3232235522, true)];
     [(IP4 3232235522, true)];
     [];
+    [];
+    [(IP4 3232235522, true)];
     [(IP4 3232235522, false); (IP4 3232235531, false)];
     [(IP6 338288524927261089654018896841347694593, true)] ].
 Proof. vm_compute. reflexivity. Qed.
